@@ -92,6 +92,9 @@ fn pick(st: &mut State) {
     let next = st.waiting.keys().copied().find(|t| eligible(st, *t));
     match next {
         Some(t) => grant(st, t),
+        // a thread marked blocked may be running again by now (the real lock it sat in was released) and about to give up a
+        // noted lock the waiting ones need: wait for it to reach its next point (a genuine cycle ends in the 5 s stall)
+        None if !st.blocked.is_empty() => {}
         None => {
             // every thread waits for a lock somebody else (also waiting) holds: a real deadlock
             st.deadlocked = true;
